@@ -84,19 +84,24 @@ def initCurrent (members : List MemberIn) : List (Member × List TP) :=
     members.foldl (fun acc m => m.prev.foldl (fun acc p => if alHas acc p then acc else acc ++ [(p, m.id)]) acc) []
   claims.foldl (fun cur pc => alSet cur pc.2 (alGetD cur pc.2 [] ++ [pc.1])) []
 
-/-- the partitions a member could get: those of the topics it subscribes to that have metadata -/
+/-- the partitions a member could get: those of the topics it subscribes to that have metadata,
+    topic by topic in sorted order (`sorted(member_metadata.subscription)`) -/
 def potentialOf (parts : List (Topic × List Nat)) (m : MemberIn) : List TP :=
-  m.subs.flatMap (fun t => match alGet parts t with | none => [] | some ps => ps.map (fun p => (t, p)))
+  (isort m.subs).flatMap (fun t => match alGet parts t with | none => [] | some ps => ps.map (fun p => (t, p)))
 
 def allTpsOf (parts : List (Topic × List Nat)) : List TP :=
   parts.flatMap (fun tps => tps.2.map (fun p => (tps.1, p)))
+
+/-- only topics that some member subscribes to take part in the assignment -/
+def subscribedTps (parts : List (Topic × List Nat)) (members : List MemberIn) : List TP :=
+  (allTpsOf parts).filter (fun tp => members.any (fun m => m.subs.contains tp.1))
 
 def initState (parts : List (Topic × List Nat)) (members : List MemberIn) (oracle : List TP) : St :=
   let cur0 := initCurrent members
   let fresh := cur0.isEmpty
   let owner := cur0.flatMap (fun cp => cp.2.map (fun p => (p, cp.1)))
   let c2p := members.map (fun m => (m.id, potentialOf parts m))
-  let p2c := (allTpsOf parts).map
+  let p2c := (subscribedTps parts members).map
     (fun tp => (tp, (members.filter (fun m => (potentialOf parts m).contains tp)).map (·.id)))
   let cur := members.foldl (fun cur m => if alHas cur m.id then cur else cur ++ [(m.id, [])]) cur0
   { members := members, cur := cur, owner := owner, p2c := p2c, c2p := c2p, subs := [],
